@@ -15,7 +15,7 @@ def run(ctx):
     rng = ctx.rng
     ctx.rule = ('per back-end (quick: spqlios-fma, nayuki-portable, fftw; thorough: all five, plus ThreadSanitizer builds of nayuki-portable and fftw), one cloud key shared by all threads: gates (NAND, XOR, MUX, AND, OR, XNOR, NOR) on '
                 'random ciphertexts evaluated on 1..64 threads with randomised start offsets and yields, oversubscription, a key-generation/encryption thread with its own data running alongside, workers '
-                'interleaving FFT products of unrelated polynomials, threads created and destroyed per item; after different same-thread histories (other gates, extreme-valued FFT products, encryptions, a fresh '
+                'interleaving FFT products of unrelated polynomials (results compared with the sequential ones), the main thread (first user of the FFT) evaluating alongside, a key set generated on a fresh thread from the same seed, threads created and destroyed per item; after different same-thread histories (other gates, extreme-valued FFT products, encryptions, a fresh '
                 'thread); with the scratch buffers of the thread\'s FFT processor overwritten by NaN / +-1e300 / random bits before every evaluation; every output compared byte for byte with the sequential '
                 'reference; writable ELF segments of the library compared before/after evaluations (after warm-up). distinct = distinct (back-end, build, scenario)')
     ctx.assumptions = ['partial: data-race freedom of the compiled C++/assembly, the FFTW planner and the memory model are runtime facts the Gallina model cannot exhibit; the interleavings explored are those the OS scheduler produced on this run (16 cores)',
@@ -26,7 +26,8 @@ def run(ctx):
     summary = {}
     for (be, bu) in variants:
         exe = harness(be, bu)
-        scen = [('footprint', 'footprint %s' % spec), ('history', 'history %s %d' % (spec, ctx.seed + 11)), ('poison', 'poison %s %d' % (spec, ctx.seed + 12))]
+        scen = [('footprint', 'footprint %s' % spec), ('history', 'history %s %d' % (spec, ctx.seed + 11)), ('poison', 'poison %s %d' % (spec, ctx.seed + 12)),
+                ('keythread', 'keythread %s %d' % (spec, ctx.seed + 13))]
         # threads <nthreads> <iters> <mode> <seed>; mode bits: 1 yields/offsets, 2 keygen thread alongside, 4 unrelated FFT products, 8 create/destroy per item
         tcs = [(1, 8, 0), (2, 8, 1), (4, 8, 5), (16, 12, 7), (64, 4, 1), (8, 6, 15), (32, 4, 3)] if not thorough else \
               [(1, 16, 0), (2, 16, 1), (3, 16, 5), (4, 16, 7), (8, 16, 7), (16, 24, 7), (32, 8, 7), (64, 8, 7), (64, 4, 15), (8, 12, 15), (16, 6, 9), (48, 6, 3)]
@@ -43,8 +44,18 @@ def run(ctx):
                 summary['%s/%s footprint' % (be, bu)] = {'bytes_changed': v[0], 'writable_bytes': v[1]}
                 if v[0] != 0: ctx.report('global-state-written', '%s/%s: %d bytes of the library\'s writable segments (%d bytes) changed during evaluation after warm-up: process-global mutable state is written by evaluation' % (be, bu, v[0], v[1]), {'case': line, 'backend': be, 'build': bu})
                 continue
+            if name == 'keythread':
+                ctx.evaluations += v[2]
+                summary['%s/%s keythread' % (be, bu)] = {'key_set_differs': v[0], 'gate_mismatches': v[1], 'evaluations': v[2]}
+                if v[0] or v[1]:
+                    ctx.report('nondeterministic-keygen', '%s/%s: the key set generated from the same seed on a fresh worker thread %s the one generated on the main thread; %d of %d gates evaluated with it differ from the reference (key generation / FFT conversion depends on the thread that runs it)' % (
+                        be, bu, 'differs from' if v[0] else 'equals', v[1], v[2]), {'case': line, 'scenario': name, 'backend': be, 'build': bu})
+                continue
             ctx.evaluations += v[1]
             summary['%s/%s %s' % (be, bu, name)] = {'mismatches': v[0], 'evaluations': v[1]}
+            if name.startswith('threads') and len(v) > 2:
+                summary['%s/%s %s' % (be, bu, name)]['fft_product_mismatches'] = v[2]
+                if v[2]: ctx.report('nondeterministic-fft', '%s/%s: %d FFT products of unrelated polynomials computed on worker threads differ from the same products computed sequentially on the main thread (%s)' % (be, bu, v[2], name), {'case': line, 'scenario': name, 'backend': be, 'build': bu})
             if name == 'poison' and len(v) > 2 and v[2] != 1: ctx.soft('poison-unavailable', 'scratch buffers of %s not reachable' % be, {'backend': be})
             if v[0] != 0:
                 what = {'history': 'after a different same-thread history', 'poison': 'with poisoned FFT scratch buffers (a transform reads a scratch cell it did not write first)'}.get(name, 'when evaluated concurrently (%s)' % name)
